@@ -138,11 +138,17 @@ def job_decode(pa, pb, job, res):
                 note(res, e1)
                 note(res, e2)
                 P2 = Prover()
-                for c1 in d1:
+                for i1, c1 in enumerate(d1):
                     P2.set_path(c1.pc)
-                    for c2 in d2:
+                    cands2 = d2
+                    if len(d1) == len(d2):
+                        c2 = d2[i1]
                         j2 = z3.And(*c2.pc[len(l.pc) + 1:]) if c2.pc[len(l.pc) + 1:] else z3.BoolVal(True)
-                        if P2.feasible(j2) is None:
+                        if P2.implied(j2):
+                            cands2 = [c2]
+                    for c2 in cands2:
+                        j2 = z3.And(*c2.pc[len(l.pc) + 1:]) if c2.pc[len(l.pc) + 1:] else z3.BoolVal(True)
+                        if len(cands2) > 1 and P2.feasible(j2) is None:
                             continue
                         if c1.kind != 'return' or c2.kind != 'return':
                             s2 = z3.BoolVal(c1.kind == c2.kind)
